@@ -952,6 +952,40 @@ pub fn cmd_tamper(args: &[String]) {
             if len == 3 && fault == "flip_tag" { rep.sample(json!({"cons": cons, "open": openv, "fault": fault, "len": len, "presentations": fam.len(), "first": fam.first().map(|f| f.2.clone())})); }
         }
     }
+    // Aead.tla fault "extend"/"truncate" where the tag has a container of its own: the object API takes any ByteArray<16> for
+    // the tag, and a Vec has no fixed length - a genuine tag followed by further bytes, or cut short, is a changed ciphertext
+    if first == 0 {
+        use dryoc::classic::{crypto_box as cbx, crypto_secretbox as csbx};
+        for len in [0usize, 1, 33] {
+            let (key, nonce, msg): ([u8; 32], [u8; 24], Vec<u8>) = (rng.arr(), rng.arr(), rng.bytes(len));
+            let (rpk, rsk) = cbx::crypto_box_keypair();
+            let (spk, ssk) = cbx::crypto_box_keypair();
+            let (mut c1, mut t1, mut c2, mut t2) = (vec![0u8; len], [0u8; 16], vec![0u8; len], [0u8; 16]);
+            csbx::crypto_secretbox_detached(&mut c1, &mut t1, &msg, &nonce, &key);
+            cbx::crypto_box_detached(&mut c2, &mut t2, &msg, &nonce, &rpk, &ssk);
+            let pre = cbx::crypto_box_beforenm(&spk, &rsk);
+            for delta in [-16i32, -1, 0, 1, 2, 16, 17] {
+                let vt = |t: &[u8; 16], r: &mut Rng| -> Vec<u8> { let mut v = t.to_vec(); if delta < 0 { v.truncate((16 + delta) as usize); } else { v.extend(r.bytes(delta as usize)); } v };
+                let (v1, v2) = (vt(&t1, &mut rng), vt(&t2, &mut rng));
+                let runs: Vec<(&str, Result<bool, String>)> = vec![
+                    ("DryocSecretBox<Vec,Vec>::from_parts+decrypt", catch(|| { let b: DryocSecretBox<Vec<u8>, Vec<u8>> = DryocSecretBox::from_parts(v1.clone(), c1.clone()); let r: Result<Vec<u8>, _> = b.decrypt(&nonce, &key); r.map(|m| m == msg).unwrap_or(false) })),
+                    ("DryocSecretBox<Vec,Vec>::from_parts+decrypt into a StackByteArray key holder", catch(|| { let b: DryocSecretBox<Vec<u8>, Vec<u8>> = DryocSecretBox::from_parts(v1.clone(), c1.clone()); let r: Result<Vec<u8>, _> = b.decrypt(&StackByteArray::from(&nonce), &S32::from(&key)); r.map(|m| m == msg).unwrap_or(false) })),
+                    ("DryocBox<Stack,Vec,Vec>::from_parts+decrypt", catch(|| { let b: DryocBox<S32, Vec<u8>, Vec<u8>> = DryocBox::from_parts(v2.clone(), c2.clone(), None); let r: Result<Vec<u8>, _> = b.decrypt(&nonce, &spk, &rsk); r.map(|m| m == msg).unwrap_or(false) })),
+                    ("DryocBox<Stack,Vec,Vec>::from_parts+precalc_decrypt", catch(|| { let b: DryocBox<S32, Vec<u8>, Vec<u8>> = DryocBox::from_parts(v2.clone(), c2.clone(), None); let r: Result<Vec<u8>, _> = b.precalc_decrypt(&nonce, &pre); r.map(|m| m == msg).unwrap_or(false) })),
+                ];
+                for (on, r) in runs {
+                    rep.evaluations += 1;
+                    match r {
+                        Ok(opened) => if opened != (delta == 0) {
+                            if delta == 0 { rep.fail(&format!("C02 {}: untampered input rejected", on), json!({"len": len, "seed": seed})); }
+                            else { rep.fail(&format!("C02 {}: accepts a ciphertext whose tag (held in a Vec) is {} by {} bytes", on, if delta < 0 { "truncated" } else { "extended" }, delta.abs()), json!({"len": len, "seed": seed})); }
+                        },
+                        Err(p) => rep.fail(&format!("C02 {}: panicked on a tag of {} bytes held in a Vec", on, 16 + delta), json!({"len": len, "panic": p, "seed": seed})),
+                    }
+                }
+            }
+        }
+    }
     rep.add("rows", rows.len() as u64);
     rep.write(&args[1]);
 }
